@@ -327,3 +327,78 @@ func genDeep(run *vlib.Run, r *vlib.Rand, tier string) {
 		}
 	}
 }
+
+// Directed stream "overrun": a root contextual rule (any format) that matches
+// k glyphs and calls, at sequence index 0, a lookup that could only match by
+// using glyphs BEHIND the root rule's matched input: a contextual lookup (any
+// format) whose input is the root's input plus 1-2 of the following glyphs and
+// whose nested action is a ligature of all of them, or that ligature called
+// directly.  A nested lookup acts on the matched input sequence only, so the
+// call can never match and the TWIN list - the same root rule without the
+// action - must give the same output (!twin, c07-inline-equivalence).  The
+// following glyphs are present in the text (for the chained root formats they
+// are the root's lookahead), so an engine that lets the nested match run past
+// the window end does match, merges glyphs that are not in the root's window
+// and corrupts the frame bookkeeping.
+func overrunCases() (out [][2]*Case) {
+	child := append(append([]string(nil), ctxKinds...), "g41")
+	for _, pk := range ctxKinds {
+		for _, ck := range child {
+			for k := 1; k <= 3; k++ {
+				for j := 1; j <= 2; j++ {
+					gs := deepPool[:k+j]
+					lig := &Lookup{Subs: []*Sub{{Kind: "g41", Cov: []KV{{gs[0], 0}}, Ligs: [][]Lig{{{In: gs[1:], Out: 999}}}}}}
+					ll := []*Lookup{nil, lig}
+					call := 1
+					if ck != "g41" {
+						m := k + j
+						if ck[0] == 'c' && j == 2 {
+							m = k + 1 // the last glyph as the child's lookahead
+						}
+						ligIn := &Lookup{Subs: []*Sub{{Kind: "g41", Cov: []KV{{gs[0], 0}}, Ligs: [][]Lig{{{In: gs[1:m], Out: 999}}}}}}
+						ll = append(ll, ligIn, &Lookup{Subs: []*Sub{ctxExact(ck, gs, m, []Act{{0, 2}})}})
+						call = 3
+					}
+					rootGs, rootM := gs[:k], k
+					if pk[0] == 'c' {
+						rootGs = gs // the following glyphs as the root's lookahead
+					}
+					ll[0] = &Lookup{Subs: []*Sub{ctxExact(pk, rootGs, rootM, []Act{{0, call}})}}
+					ll2 := append([]*Lookup(nil), ll...)
+					ll2[0] = &Lookup{Subs: []*Sub{ctxExact(pk, rootGs, rootM, []Act{})}}
+					mk := func(pre, reps int) []G {
+						var s []G
+						add := func(g int) { s = append(s, G{Gid: g, Text: []rune{rune('a' + len(s)%26)}}) }
+						for i := 0; i < pre; i++ {
+							add(8)
+						}
+						for r := 0; r < reps; r++ {
+							for _, g := range gs {
+								add(g)
+							}
+						}
+						return s
+					}
+					hist := [][]G{mk(0, 1), mk(1, 2), mk(0, 2)}
+					out = append(out, [2]*Case{
+						{LL: ll, Lookups: []int{0}, Hist: hist},
+						{LL: ll2, Lookups: []int{0}, Hist: hist}})
+				}
+			}
+		}
+	}
+	return out
+}
+
+func genOverrun(run *vlib.Run, tier string) {
+	for _, p := range overrunCases() {
+		c, twin := p[0], p[1]
+		emit(run, c, "stream:overrun-nested")
+		line := twinLine(c, twin)
+		impl, fail, sig := twinOracle(c, twin)
+		idx := run.Add(line, impl, true, "stream:overrun-twin", "oracle-only")
+		if fail != "" {
+			run.Fail(idx, line, fail, sig)
+		}
+	}
+}
